@@ -140,7 +140,12 @@ namespace occa {
                "(reserved: " << reserved << ", bytes: " << bytes << ")",
                reserved <= bytes);
 
-    if (size == bytes) return; /*Nothing to do*/
+    /*
+    Nothing to do, unless there are gaps between the reservations:
+    callers rely on a resize packing the reservations into [0, reserved)
+    */
+    if ((size == bytes) &&
+        ((reservations.size() == 0) || (reserved == size))) return;
 
     const udim_t alignedBytes = ((bytes + alignment - 1) / alignment) * alignment;
 
